@@ -21,3 +21,10 @@ package sliceu
 //@   ensures forall(func(k T) bool { return has(result, k) == exists(0, len(sl), func(j int) bool { return sl[j] == k }) })
 //@   loop 0:
 //@     invariant forall(func(k T) bool { return has(out, k) == exists(0, idx_, func(j int) bool { return sl[j] == k }) })
+
+//@ func Pick
+//@   property C06
+//@   requires forall(0, len(idxList), func(j int) bool { return 0 <= idxList[j] && idxList[j] < len(s) })
+//@   ensures len(result) == len(idxList) && forall(0, len(idxList), func(j int) bool { return result[j] == s[idxList[j]] })
+//@   loop 0:
+//@     invariant len(ret) == idx_ && forall(0, idx_, func(j int) bool { return ret[j] == s[idxList[j]] })
